@@ -8,8 +8,13 @@
 (* operators satisfy the property-level ones.                              *)
 (*   Part = "vr"      one element: every VR x in-memory representation x   *)
 (*                    multiplicity 0..MaxMult x value alphabet             *)
+(*                    (text alphabets of CS, LO, SH, PN include the empty  *)
+(*                    string: an empty value at any position of a multi-   *)
+(*                    valued element, and a single blank value)            *)
 (*   Part = "struct"  several elements in any insertion order, sequences   *)
 (*                    with 0..2 items, nested to depth 2, empty items      *)
+(*   both parts       long binary values around the block sizes a chunked  *)
+(*                    base64 encoder would use (LongBin)                   *)
 (***************************************************************************)
 EXTENDS DicomJsonVectors, Json, FiniteSets
 
@@ -67,15 +72,15 @@ TagOf(vr) == CASE vr = "AE" -> T(8, 84)        \* (0008,0054) RetrieveAETitle
 
 TextAlpha(vr) == CASE vr = "AE" -> {"MAIN", "AE TITLE ", "X"}
    [] vr = "AS" -> {"030Y", "006M", "001D"}
-   [] vr = "CS" -> {"CT", "ISO_IR 192", "A "}
+   [] vr = "CS" -> {"CT", "ISO_IR 192", "A ", ""}
    [] vr = "DA" -> {"20230610", "19991231", "20000229"}
    [] vr = "DT" -> {"20230610123000.5+0100", "2023", "202306101230"}
-   [] vr = "LO" -> {"Hospital A", " lead", "pad  "}
-   [] vr = "SH" -> {"SH1", "a b", "Z "}
+   [] vr = "LO" -> {"Hospital A", " lead", "pad  ", ""}
+   [] vr = "SH" -> {"SH1", "a b", "Z ", ""}
    [] vr = "TM" -> {"120000", "235959.999999", "07"}
    [] vr = "UC" -> {"unlimited chars", "x", "y "}
    [] vr = "UI" -> {"1.2.840.10008.1.2", "1.2.3", "2.25.1"}
-   [] vr = "PN" -> {"Doe^John", "^Bob^^Dr.", "Yamada^Tarou=YT=yt", "A^B "}
+   [] vr = "PN" -> {"Doe^John", "^Bob^^Dr.", "Yamada^Tarou=YT=yt", "A^B ", ""}
 SingleText == {"Some text.", "a\\b with a backslash", "trailing  ", "say \"hi\"", "http://example.com/a?b=c"}
 MultiTextVRs == {"AE", "AS", "CS", "DA", "DT", "LO", "SH", "TM", "UC", "UI", "PN"}
 SingleTextVRs == {"LT", "ST", "UT", "UR"}
@@ -118,6 +123,18 @@ VRElems ==
   \cup One("OV", "u64", U64s, 1, MaxMult) \cup One("OF", "f32", Floats, 1, MaxMult)
   \cup One("OD", "f64", Floats, 1, MaxMult)
 
+(* long binary values: lengths 3k, 3k+1, 3k+2 around 1024, 4096, 8192, 12288 *)
+(* and 65536 bytes, given by the rule byte i = (a*i + b) mod 256             *)
+Pat(n, a, b) == [n |-> n, a |-> a, b |-> b]
+Long(vr, rep, n, a, b) == El(TagOf(vr).g, TagOf(vr).e, vr, rep, <<Pat(n, a, b)>>)
+LongBin ==
+  {Long("OB", "pat8", n, 37, 11) : n \in {1022, 1023, 1024, 1025, 3073, 4095, 4096, 4097, 4098, 8192, 8193, 12289, 65537}}
+  \cup {Long("UN", "pat8", n, 101, 250) : n \in {4097, 8194, 65537}}
+  \cup {Long("OW", "pat16", n, 257, 3) : n \in {512, 513, 2049, 4097}}
+  \cup {Long("OW", "pat8", n, 1, 0) : n \in {4098, 65538}}
+  \cup {Long("OF", "pat8", n, 255, 1) : n \in {4100, 8196, 65540}}
+  \cup {Long("OD", "pat8", n, 3, 128) : n \in {4104, 12296}}
+  \cup {Long("OL", "pat8", n, 17, 0) : n \in {4100}} \cup {Long("OV", "pat8", n, 19, 5) : n \in {8200}}
 (* structure sweep *)
 Leaves == {El(16, 16, "PN", "strs", <<"Doe^John">>), El(40, 16, "US", "u16", <<P("512")>>),
            El(32, 20480, "AT", "tags", <<T(8, 24)>>), El(66, 17, "OB", "u8", <<P("1"), P("2"), P("3")>>),
@@ -125,6 +142,8 @@ Leaves == {El(16, 16, "PN", "strs", <<"Doe^John">>), El(40, 16, "US", "u16", <<P
 Orders(S) == {s \in [1..Cardinality(S) -> S] : \A i, j \in 1..Cardinality(S) : i # j => s[i] # s[j]}
 LeafSets(k) == UNION {Orders(S) : S \in {X \in SUBSET Leaves : Cardinality(X) <= k}}
 SQ(g, e, items) == El(g, e, "SQ", "items", items)
+LongCases == {<<el>> : el \in LongBin}
+             \cup {<<SQ(8, 4416, <<<<Long("OB", "pat8", 4097, 7, 1)>>, <<Long("OW", "pat8", 4100, 9, 2)>>>>), Long("UN", "pat8", 5000, 3, 3)>>}
 Inner == {<<>>, <<El(8, 4432, "UI", "strs", <<"1.2.840.10008.5.1.4.1.1.7">>)>>,
           <<El(8, 4437, "UI", "strs", <<"1.2.3.4">>), El(8, 4432, "UI", "strs", <<"1.2">>)>>}
 Items1 == LeafSets(1) \cup {<<El(40, 16, "US", "u16", <<P("512")>>), El(16, 16, "PN", "strs", <<"Doe^John">>)>>}
@@ -135,9 +154,11 @@ StructCases ==
   \cup {<<SQ(8, 4416, it)>> : it \in Seqs(Items1, 0, 2)}                                 \* (0008,1140)
   \cup {<<El(32736, 16, "OW", "u16", <<P("258")>>), SQ(8, 4416, <<i>>), El(8, 24, "UI", "str", <<"1.2.3">>)>> : i \in Items1}
   \cup {<<SQ(21504, 256, <<i>>), SQ(8, 4416, <<i, i>>)>> : i \in Items1}                \* (5400,0100) before (0008,1140)
+  \cup {<<SQ(8, 4416, <<<<El(16, 16, "PN", "strs", v)>>>>)>> : v \in {<<"">>, <<"Smith^Anna", "", "Jones^Bob">>, <<"", "A^B">>, <<"A^B", "">>}}
+  \cup {<<SQ(8, 4416, <<<<El(16, 16, "PN", "str", <<"">>), El(8, 128, "LO", "strs", <<"", "x">>)>>>>)>>}
 
-Cases == IF Part = "vr" THEN {<<el>> : el \in VRElems} ELSE IF Part = "struct" THEN StructCases
-         ELSE {<<el>> : el \in VRElems} \cup StructCases
+Cases == IF Part = "vr" THEN {<<el>> : el \in VRElems} \cup LongCases ELSE IF Part = "struct" THEN StructCases
+         ELSE {<<el>> : el \in VRElems} \cup StructCases \cup LongCases
 
 (* One behaviour-free "state machine": the work is done when TLC evaluates  *)
 (* the assumption below (operator arguments and LET definitions are cached  *)
